@@ -199,8 +199,8 @@ def _r2(model, res, c, um):
     S = pieces_of(s_outs, Iv(T1900, True, T_MAX, True))
     res.analysed['pieces of serial->date'] = len(P)
     res.analysed['pieces of date->serial'] = len(S)
-    res.floor('pieces of the serial->date converter', len(P), 3)
-    res.floor('pieces of the date->serial converter', len(S), 2)
+    res.soft_floor('pieces of the serial->date converter', len(P), 3)
+    res.soft_floor('pieces of the date->serial converter', len(S), 2)
 
     def val(o):
         v = o.value
